@@ -20,6 +20,8 @@ type C14Case struct {
 	Toks []string `json:"toks"` // the mutated grammar as a token list (one blank between tokens)
 	Base string   `json:"base"` // the well-formed grammar it was derived from
 	Muts []string `json:"muts"` // description of the mutations
+	// Flags: extra command-line flags (rejection must not depend on them)
+	Flags []string `json:"flags,omitempty"`
 }
 
 var (
@@ -72,7 +74,13 @@ func genC14(t *rapid.T) C14Case {
 	for k := 0; k < n; k++ {
 		toks, muts = mutateGrammar(t, toks, muts)
 	}
-	return C14Case{Toks: toks, Base: g.Source(), Muts: muts}
+	var flags []string
+	for _, f := range []string{"-no_lexer", "-zip", "-v", "-debug_parser"} {
+		if rapid.IntRange(0, 3).Draw(t, "flag"+f) == 0 {
+			flags = append(flags, f)
+		}
+	}
+	return C14Case{Toks: toks, Base: g.Source(), Muts: muts, Flags: flags}
 }
 
 func mutateGrammar(t *rapid.T, toks []string, muts []string) ([]string, []string) {
@@ -292,14 +300,14 @@ func checkC14(cx *Ctx, c C14Case) *Failure {
 	if err := os.WriteFile(filepath.Join(dir, "g.bnf"), []byte(src), 0o644); err != nil {
 		return Failf("INFRA: %v", err)
 	}
-	for _, flags := range [][]string{{"-a"}} {
+	for _, flags := range [][]string{append([]string{"-a"}, c.Flags...)} {
 		args := append(append([]string{}, flags...), "-o", "out", "g.bnf")
 		r := cx.Env.Run(dir, nil, args...)
 		if r.CPULimit {
 			return Failf("gocc did not terminate (CPU limit) on the ill-formed grammar %q", src)
 		}
 		if r.Exit == 0 {
-			return Failf("ill-formed grammar accepted (exit 0): %s\nmutations: %v\ngrammar: %s\nstdout: %s\nderived from:\n%s", reason, c.Muts, src, tail(r.Stdout+r.Stderr), c.Base)
+			return Failf("ill-formed grammar accepted (exit 0, flags %v): %s\nmutations: %v\ngrammar: %s\nstdout: %s\nderived from:\n%s", flags, reason, c.Muts, src, tail(r.Stdout+r.Stderr), c.Base)
 		}
 	}
 	cls := "condemned_lexical_part"
